@@ -147,7 +147,7 @@ impl Property for C07 {
     fn rule(&self) -> String {
         "each case = a size-static generated instruction set and program (as in C01, incl. constants named like registers = literal-versus-expression overlaps, and injected faults) rendered \
          as a base text and 6 variants: (1) random re-casing of mnemonics and of operands that every surviving rule reads literally, (2) extra blanks/tabs at token boundaries (after the \
-         mnemonic, around commas, inside [ ] ( ) and after #; blanks are only added, never removed, never inside a word; the optional blank behind the commas of the RULE PATTERNS is re-drawn too - instruction lines always carry that blank), (3) block comments at those boundaries and trailing ; comments, \
+         mnemonic, around commas, inside [ ] ( ) and after #; blanks are only added, never removed, never inside a word; the optional blank behind the commas of the RULE PATTERNS is re-drawn too - instruction lines always carry that blank), (3) block comments at those boundaries - also directly behind a token, in front of the blank the rule asks for (`ld;* c *; 5`) - and trailing ; comments, \
          (4) rules shuffled and re-partitioned into 1-4 named/unnamed blocks, (5) labels (and constants sharing a bare name with one) consistently renamed, (6) all of these together. One case in three additionally carries a block of rules with literal letters glued behind a parameter \
          (`wt {n}ms`, `lq {x}b` beside `lq {x}`, `sf {a}x{b}`), with operator-separated parameters (`sb {x} - {y}`), or with mnemonics that start with a digit or carry a digit-led dotted suffix (`2dup`, `2drop {x}`, `1up {x}`, `b.8h {x}`), and lines using them (`wt 10ms`, `lq 0x1b`, `sf 3x4`, `2DUP`), re-cased / re-spaced / commented / re-ordered in the variants. Metamorphic oracle: every variant has the same \
          success/failure as the base and, on success, identical output bits. Non-trivial = the program has an instruction with >= 2 syntactic matches before the literal-count filter or \
